@@ -92,7 +92,7 @@ CLAIMED = {
  "C08": dict(
     category="model_checking",
     text="Every I/O call of the recorded workloads is an event of the CrashModel trace: a user-table page write must carry a page LSN that an earlier WriteLog made durable, a writing transaction's commit may return only after its COMMIT record was handed to WriteLog, and every WriteLog payload must parse (own strict parser) into complete records with increasing LSNs per transaction and an intact prevLSN chain; TLC evaluates these on every page write, log write and commit return of every workload (pools of 16-128 frames, forced checkpoints, evictions).",
-    design_ref="DESIGN.md section 5 C08", note=COMMON + " Heap pages are identified from NewTablePage records and the table's first page; index pages reuse the LSN field as an update counter and are excluded. Concurrent (multi-goroutine) executions are not yet covered.",
+    design_ref="DESIGN.md section 5 C08", note=COMMON + " Heap pages are identified from NewTablePage records and the table's first page; index pages reuse the LSN field as an update counter and are excluded. The page-LSN and log well-formedness rules are also checked on runs of 8 concurrent clients (GOMAXPROCS 4/16, small pools); commit-return ordering only in single-goroutine workloads.",
     technique="TLA+ trace validation of the recorded page-write / log-write / commit-return order against the write-ahead rules"),
  "C20": dict(
     category="model_checking",
